@@ -131,6 +131,11 @@ def run(ctx):
             cases.append({"fn": "cli", "arglist": [mode, "--seqargs=" + fmt_list(t, bracket, 0), "fpsearch"],
                           "cmd": "fpsearch", "mode": mode, "bracket": bracket, "so": "Wx", "tol": 0.1, "exp_args": t,
                           "npseed": rng.randrange(2 ** 31), "timeout": 600})
+        # hamsim at a longer time: whether the cosine / sine step succeeds depends on the random root choice (several numpy seeds)
+        for sd in (range(8) if quick else range(40)):
+            mode = "--return-angles" if sd % 2 == 0 else "--output-json"
+            cases.append({"fn": "cli", "arglist": [mode, "--seqargs=30,0.1", "hamsim"], "cmd": "hamsim", "mode": mode, "bracket": False,
+                          "so": "Wx", "tol": 0.1, "exp_args": [30, 0.1], "npseed": sd, "timeout": 600})
         for cmd in UNKNOWN:
             cases.append({"fn": "cli", "arglist": ["--return-angles", "--poly=-1,0,2", cmd], "cmd": cmd, "mode": "--return-angles", "bracket": False,
                           "so": "Wx", "tol": 0.1, "exp_args": [], "npseed": 1, "timeout": 120})
@@ -162,6 +167,13 @@ def run(ctx):
             if ro["ret"] is not None or calls or not ro["unknown"] or not ro["usage"]:
                 ctx.fail("cli", c, "unknown command %r: expected help text and no phases (returned %s, %d library calls, help printed: %s)" %
                          (c["cmd"], ro["ret"] is not None, len(calls), ro["unknown"] and ro["usage"]))
+            continue
+        lib_raised = [x["raised"] for x in q if x.get("raised")]
+        if lib_raised and ro["exc"] is None:
+            if ro["ret"] is not None or ro["json"] is not None:
+                ctx.fail("cli", c, "the phase finder raised %s for one of the command's polynomials, yet the command returned / printed phases" % lib_raised[0])
+            else:
+                ctx.bucket("library raised, command ended without phases")
             continue
         if ro["exc"] is not None:
             ctx.bucket("library raised through the command line: " + ro["exc"].split(":")[0])
